@@ -207,7 +207,7 @@ def malformed_pool():
         ast.FunctionDef(name="f"), ast.comprehension(target=N("i"), iter=N("x"), ifs=[], is_async=0), ast.comprehension(is_async=True),
         ast.FormattedValue(value=N("x"), conversion=-1), ast.FormattedValue(value=N("x"), conversion=114, format_spec=None),
         ast.JoinedStr(values=[C("a"), C("b")]), ast.JoinedStr(values=[C("ab")]), ast.Subscript(value=N("a"), slice=C(1)),
-        ast.UnaryOp(op=ast.USub(), operand=C(1)), ast.Constant(value=-1), ast.Starred(value=N("a")), ast.Starred(value=N("a"), ctx=ast.Load()),
+        ast.UnaryOp(op=ast.USub(), operand=C(1)), ast.Constant(value=-1), ast.Constant(value=(1, 2)), ast.Constant(value=frozenset()), ast.Starred(value=N("a")), ast.Starred(value=N("a"), ctx=ast.Load()),
     ]
     return out
 
